@@ -69,6 +69,11 @@ pub fn sets(tier: Tier) -> Vec<Set> {
             let lq = vec![t300.clone(), words[100..260].join(" "), long_text(60, 100), words[..3].join(" ")];
             sets.push(Set { l, name: "add-seqs<=2 over 3 long texts (60 / 150 / 300 words)".into(), menu: lmenu, lo: 1, hi: 2, queries: lq, sizes: vec![1, 3], block: 1 });
         }
+        // (v) long stores by run length: i x title A, j x title B, k x title C with i + j + k = 26 in every order of the
+        //     three titles - more than 2 x 10 x size sharing records, so the top-k helper prunes mid-stream
+        if l == L::None || l == L::Ru || tier == Tier::Thorough {
+            sets.push(Set { l, name: "run-length stores of 26 over 3 titles (a..a b..b c..c in all 6 orders)".into(), menu: three.clone(), lo: 0, hi: 0, queries: capq.clone(), sizes: vec![1], block: 50 });
+        }
         // (iii) word-level menu
         let lex = lex_strings(l);
         let mut wmenu: Vec<String> = lex.iter().take(8).cloned().collect();
@@ -86,13 +91,52 @@ impl C18 {
     }
 }
 
+pub const RUN_TOTAL: usize = 26;
+
+/// number of run-length stores: 6 title orders x compositions (i, j, k >= 1, i + j + k = RUN_TOTAL)
+pub fn run_len_count() -> u64 {
+    6 * ((RUN_TOTAL - 1) * (RUN_TOTAL - 2) / 2) as u64
+}
+
 pub fn store_of(set: &Set, idx: u64) -> Vec<Rec> {
+    if set.hi == 0 && set.name.starts_with("run-length") {
+        let orders = [[0usize, 1, 2], [0, 2, 1], [1, 0, 2], [1, 2, 0], [2, 0, 1], [2, 1, 0]];
+        let order = orders[(idx % 6) as usize];
+        let mut c = idx / 6;
+        // un-rank the composition
+        let mut i = 1;
+        loop {
+            let rest = (RUN_TOTAL - i - 1) as u64; // choices for j
+            if c < rest {
+                break;
+            }
+            c -= rest;
+            i += 1;
+        }
+        let j = 1 + c as usize;
+        let k = RUN_TOTAL - i - j;
+        let mut titles: Vec<usize> = Vec::new();
+        for (n, t) in [(i, order[0]), (j, order[1]), (k, order[2])] {
+            for _ in 0..n {
+                titles.push(t);
+            }
+        }
+        return titles.into_iter().enumerate().map(|(p, t)| rec(100 + p, &set.menu[t], p)).collect();
+    }
     seq_at(set.menu.len() as u64, set.lo, set.hi, idx).into_iter().enumerate().map(|(i, t)| rec(100 + i, &set.menu[t], i)).collect()
+}
+
+pub fn set_len(s: &Set) -> u64 {
+    if s.hi == 0 && s.name.starts_with("run-length") {
+        run_len_count()
+    } else {
+        seqs_len(s.menu.len() as u64, s.lo, s.hi)
+    }
 }
 
 impl Prop for C18 {
     fn doms(&self) -> Vec<Dom> {
-        self.sets.iter().map(|s| Dom::new(format!("{}/{}", s.l.tag(), s.name), seqs_len(s.menu.len() as u64, s.lo, s.hi), s.block)).collect()
+        self.sets.iter().map(|s| Dom::new(format!("{}/{}", s.l.tag(), s.name), set_len(s), s.block)).collect()
     }
     fn run(&self, dom: usize, idx: u64, cx: &mut Cx) {
         let set = &self.sets[dom];
